@@ -769,9 +769,10 @@ func (e *Engine) MessageReceived(ctx context.Context, p peer.ID, m bsmsg.BitSwap
 	for _, entry := range cancels {
 		c := entry.Cid
 		log.Debugw("Bitswap engine <- cancel", "local", e.self, "from", p, "cid", c)
-		if e.peerLedger.CancelWant(p, c) {
-			e.peerRequestQueue.Remove(c, p)
-		}
+		// Remove any queued response, also for wants that are not in the ledger
+		// (denied wants, wants evicted by an overflow of the same message).
+		e.peerLedger.CancelWant(p, c)
+		e.peerRequestQueue.Remove(c, p)
 	}
 
 	e.lock.Unlock()
